@@ -674,3 +674,32 @@ repair(
     "F9",
     (PLAN, "    dags = [x._plan.dag for x in arrays if hasattr(x, \"_plan\")]\n    return nx.compose_all(dags)", "    dags = [x._plan.dag for x in arrays if hasattr(x, \"_plan\")]\n    seen = {}\n    for dag in dags:\n        for n, d in dag.nodes(data=True):\n            if n in seen and seen[n].get(\"target\") is not d.get(\"target\"):\n                raise ValueError(f\"two different plan nodes share the name {n}\")\n            seen[n] = d\n    return nx.compose_all(dags)"),
 )
+
+
+# ------------------------------------------------ variants for the rules that were written because of a
+# seeded change (§11.6): a second, different way to break the same obligation, and a
+# behaviour-preserving edit of the same code that must stay silent
+PAD = "cubed/array/pad.py"
+ELEM = "cubed/array_api/elementwise_functions.py"
+mutant("M110-pad-before-uses-after-value", ["C01"], "TWIN-ROLE-1", (PAD, "                    tuple(shape),\n                    val_before,", "                    tuple(shape),\n                    val_after,"))
+mutant("M111-pad-after-width-from-before", ["C01"], "TWIN-ROLE-1", (PAD, "            shape[axis] = pad_after\n", "            shape[axis] = pad_before\n"))
+benign("B-pad-min-args-commuted", ["C01"], (PAD, "            c[axis] = min(pad_after, result.chunksize[axis])", "            c[axis] = min(result.chunksize[axis], pad_after)"))
+benign("B-pad-after-block-restructured", ["C01"], (PAD, "        if pad_after > 0:\n            shape = list(result.shape)\n            shape[axis] = pad_after\n", "        if pad_after > 0:\n            shape = [pad_after if i == axis else s for i, s in enumerate(result.shape)]\n"))
+mutant("M112-product-from-empty-pool-guard-dropped", ["C17"], "DIVZERO-1", (PBW, "    if not pools or any(len(pool) == 0 for pool in pools):\n        return\n", "    if not pools:\n        return\n"))
+benign("B-split-every-max-guard", ["C17"], (OPS, "        n = builtins.max(int(split_every ** (1 / (len(axis) or 1))), 2)", "        n = builtins.max(int(split_every ** (1 / max(len(axis), 1))), 2)"))
+mutant("M113-reduced-chunks-sized-with-input-dtype-alias", ["C03"], "MEM-DTYPE-1", (OPS, "    extra_projected_mem = x.chunkmem + 2 * array_memory(dtype, to_chunksize(chunks))", "    in_dtype = x.dtype\n    extra_projected_mem = x.chunkmem + 2 * array_memory(in_dtype, to_chunksize(chunks))"))
+benign("B-reduced-chunks-dtype-alias", ["C03"], (OPS, "    extra_projected_mem = x.chunkmem + 2 * array_memory(dtype, to_chunksize(chunks))", "    out_dtype = dtype\n    reduced = array_memory(out_dtype, to_chunksize(chunks))\n    extra_projected_mem = x.chunkmem + 2 * reduced"))
+mutant("M114-worker-drops-kwargs", ["C06"], "PICKLE-PAIR-1", (LOCAL, "    kwargs = {k: cloudpickle.loads(v) for k, v in kwargs.items()}\n    return f(inp, **kwargs)", "    return f(inp)"))
+mutant("M115-whole-batch-pickled-as-input", ["C06"], "PICKLE-PAIR-1", (LOCAL, "                        cloudpickle.dumps(i),\n", "                        cloudpickle.dumps(input),\n"))
+benign("B-pickled-function-hoisted", ["C06"], (LOCAL, "        pickled_kwargs = {k: cloudpickle.dumps(v) for k, v in kwargs.items()}\n", "        pickled_kwargs = {k: cloudpickle.dumps(v) for k, v in kwargs.items()}\n        pickled_function = cloudpickle.dumps(function)\n"), (LOCAL, "                        cloudpickle.dumps(function),\n", "                        pickled_function,\n"))
+mutant("M116-store-blockwise-drops-nofuse", ["C11", "C02"], "STORE-NOFUSE-1", (OPS, "                target_store=target,\n                fusable_with_successors=False,\n", "                target_store=target,\n"))
+benign("B-store-retarget-statements-reordered", ["C11"], (OPS, "                    op.target_array = target\n                    op.fusable_with_successors = False\n", "                    op.fusable_with_successors = False\n                    op.target_array = target\n"))
+mutant("M117-clip-equal-bounds-shortcut", ["C16"], "LAZY-IMPLICIT-1", (ELEM, "    else:  # min is not None and max is not None\n        min = asarray(min, spec=x.spec)", "    else:  # min is not None and max is not None\n        if min == max:\n            return full_like(x, min)\n        min = asarray(min, spec=x.spec)"))
+benign("B-clip-scalar-bounds-validated", ["C16"], (ELEM, "    else:  # min is not None and max is not None\n        min = asarray(min, spec=x.spec)", "    else:  # min is not None and max is not None\n        if isinstance(min, (int, float)) and isinstance(max, (int, float)) and min > max:\n            raise ValueError(\"min must not exceed max\")\n        min = asarray(min, spec=x.spec)"))
+mutant("M118-twin-one-direction-kept", ["C08"], "MAP-TWIN-SYM-1", (ASYNC, "                    del backups[task]\n                    del backups[backup]\n", "                    del backups[task]\n"))
+benign("B-twin-removed-with-pop", ["C08"], (ASYNC, "                    del backups[task]\n                    del backups[backup]\n", "                    backups.pop(task)\n                    backups.pop(backup)\n"))
+mutant("M119-accum-order-swapped-plain-branch", ["C01"], "ACCUM-ORDER-1", (OPS, "            result = nxp.concat([result, reduced_chunk], axis=axis[0])", "            result = nxp.concat([reduced_chunk, result], axis=axis[0])"))
+benign("B-accum-concat-tuple", ["C01"], (OPS, "            result = nxp.concat([result, reduced_chunk], axis=axis[0])", "            result = nxp.concat((result, reduced_chunk), axis=axis[0])"))
+# unrelated edits next to known findings: the KNOWN-FINDING keys must still match (no re-report)
+benign("B-store-blockwise-kwargs-reordered", ["C05", "C11", "C10"], (OPS, "                dtype=source.dtype,\n                align_arrays=False,\n                target_store=target,\n", "                align_arrays=False,\n                dtype=source.dtype,\n                target_store=target,\n"))
+benign("B-store-region-local-renamed", ["C05", "C11", "C13"], (OPS, "        out = general_blockwise(\n            identity,\n            back_key_function,\n            source,\n            shapes=[shape],", "        stored = general_blockwise(\n            identity,\n            back_key_function,\n            source,\n            shapes=[shape],"), (OPS, "        assert isinstance(out, Array)  # single output\n        return out\n\n\ndef to_zarr(", "        assert isinstance(stored, Array)  # single output\n        return stored\n\n\ndef to_zarr("))
